@@ -15,6 +15,12 @@ import vlib
 DAY = 86400000
 BIT = {'C05': 0, 'C06': 1, 'C07': 2, 'C09': 3}
 ENV = {'LC_ALL': 'C.UTF-8', 'LANG': 'C.UTF-8', 'TZ': 'UTC'}
+LOCALES = ['C.UTF-8', 'fa_IR.UTF-8', 'ar_EG.UTF-8']     # the last two have native digits (they need not be installed: Qt reads the names)
+
+
+def env_for(loc):
+    loc = loc or 'C.UTF-8'
+    return {'LC_ALL': loc, 'LANG': loc, 'LC_TIME': loc, 'LC_NUMERIC': loc, 'LC_CTYPE': loc, 'TZ': 'UTC'}
 INT_MAX = 2147483647
 
 
@@ -97,6 +103,7 @@ def gen_case(rng, thorough=False):
     names = Names(base, suffix)
     # process time zone, minutes east of UTC (POSIX TZ strings; the virtual clock itself is UTC)
     tz = rng.choice([0, 0, 0, 540, -660, 330, -210, 765])
+    locale = rng.choice(LOCALES + ['C.UTF-8'])          # the child's LC_ALL / LANG / LC_TIME / LC_NUMERIC; the model is locale-independent
     off = tz * 60000
     day0 = 19675 + rng.randrange(0, 400)
     t0 = day0 * DAY + rng.choice([0, 1, 43200000, DAY - 1500, DAY - 1, rng.randrange(DAY), rng.randrange(DAY),
@@ -172,7 +179,7 @@ def gen_case(rng, thorough=False):
             ops.append(('restart',))
         else:
             ops.append(('put', rng.choice(la), rng.choice([b'', b'foreign\n', b'\x00\xff'])))
-    return {'L': L, 'N': N, 'opts': opts, 'gran': gran, 'base': base, 'suffix': suffix, 't0': t0, 'tz': tz, 'ops': ops}
+    return {'L': L, 'N': N, 'opts': opts, 'gran': gran, 'base': base, 'suffix': suffix, 't0': t0, 'tz': tz, 'locale': locale, 'ops': ops}
 
 
 # ------------------------------------------------------------------------------------ protocol
@@ -217,14 +224,24 @@ def parse_listing(line, names, decode):
     return sorted(out)
 
 
-def run_exec(exe, cases, args=(), chunks=4):
+def run_exec(exe, cases, args=(), chunks=4, locales=None):
     """run all cases through exe (one process per chunk); args == ('IMPL',) -> the harness (gets a scratch
     directory as its argument).  returns (list of output lines per case, [(rc, stderr) per process])"""
     idx = list(range(len(cases)))
-    parts = [idx[i::chunks] for i in range(chunks)] if len(cases) >= 8 else [idx]
     res = [None] * len(cases)
+    if locales is None:
+        groups = {'C.UTF-8': idx}
+    else:                           # the locale is a property of the child process: one process group per locale
+        groups = {}
+        for i in idx:
+            groups.setdefault(locales[i] or 'C.UTF-8', []).append(i)
+    parts = []
+    for loc, members in groups.items():
+        k = max(1, min(chunks, len(members) // 8)) if len(groups) > 1 else (chunks if len(cases) >= 8 else 1)
+        parts += [(loc, members[i::k]) for i in range(k)]
 
-    def work(part):
+    def work(lp):
+        loc, part = lp
         lines = []
         for i in part:
             lines += cases[i]
@@ -233,7 +250,7 @@ def run_exec(exe, cases, args=(), chunks=4):
         if args == ('IMPL',):
             tmp = tempfile.mkdtemp(prefix='rot_', dir='/tmp')
             try:
-                rc, out, err = vlib.run_lines(exe, lines, [tmp], timeout=900, env=ENV)
+                rc, out, err = vlib.run_lines(exe, lines, [tmp], timeout=900, env=env_for(loc))
             finally:
                 shutil.rmtree(tmp, ignore_errors=True)
         else:
@@ -245,7 +262,7 @@ def run_exec(exe, cases, args=(), chunks=4):
             p += n
         return rc, err
 
-    with ThreadPoolExecutor(max_workers=chunks) as ex:
+    with ThreadPoolExecutor(max_workers=max(chunks, 1)) as ex:
         rcs = list(ex.map(work, parts))
     return res, rcs
 
@@ -412,7 +429,7 @@ def verdicts(case, model_exe, listings, only=None):
 
 
 def run_impl_one(impl_exe, case):
-    res, rcs = run_exec(impl_exe, [lines_of(case, True)], ('IMPL',), chunks=1)
+    res, rcs = run_exec(impl_exe, [lines_of(case, True)], ('IMPL',), chunks=1, locales=[case.get('locale')])
     nm = Names(case['base'], case['suffix'])
     return [parse_listing(l, nm, True) for l in res[0]], rcs[0]
 
@@ -510,7 +527,7 @@ def run_check(pid):
     chk.assumptions = ['the wall clock never goes backwards (Advance dt >= 0) and stays before 9999-12-31; the process time zone is a fixed offset (no DST change during a history)',
                        'no other program creates files matching the sink\'s rotated-name scheme while it runs (pre-existing ones = an earlier life of the same sink)',
                        '(L, N, options) stay fixed across restarts; messages are dated by the wall clock at the time they are written (synchronous logging; DESIGN F7)',
-                       'no I/O errors (C10), UTF-8 locale, rotation indices below 2^31']
+                       'no I/O errors (C10), a UTF-8 locale (C, fa_IR, ar_EG exercised), rotation indices below 2^31']
     chk.proof(vlib.proof_leg('Properties_' + pid, ['rotate']))
     model = vlib.build_model('rotate')
     impl = vlib.build_harness('rotate')
@@ -527,7 +544,7 @@ def run_check(pid):
     rc, sh_out, _ = vlib.run_lines(model, [], ['shape'])
     shape_std = sh_out[:1] == ['1']
     t0 = time.time()
-    impl_out, rcs_i = run_exec(impl, [lines_of(c, True) for c in cases], ('IMPL',), chunks=6)
+    impl_out, rcs_i = run_exec(impl, [lines_of(c, True) for c in cases], ('IMPL',), chunks=6, locales=[c.get('locale') for c in cases])
     model_out, rcs_m = run_exec(model, [lines_of(c, False) for c in cases], (), chunks=4)
     t_run = time.time() - t0
     crashed = [rc for rc, _ in rcs_i if rc != 0]
@@ -588,11 +605,11 @@ def run_check(pid):
         if sig in reported:
             continue
         reported.add(sig)
-        what = '%s falsified on the real RotatingFileSink: L=%d N=%d options=%d granularity=%dms zone=UTC%+dmin file=%s, %d operations; oracle prop_%s_b false after operation %d (%s)' % (
-            pid, small['L'], small['N'], small['opts'], small['gran'], small.get('tz', 0), nm.active.decode(), len(ops), pid.lower(), fbs,
+        what = '%s falsified on the real RotatingFileSink: L=%d N=%d options=%d granularity=%dms zone=UTC%+dmin locale=%s file=%s, %d operations; oracle prop_%s_b false after operation %d (%s)' % (
+            pid, small['L'], small['N'], small['opts'], small['gran'], small.get('tz', 0), small.get('locale') or 'C.UTF-8', nm.active.decode(), len(ops), pid.lower(), fbs,
             show_op(([None] + list(ops))[fbs]))
         chk.fail(what, {'kind': KIND[pid], 'case': case_json(small), 'L': small['L'], 'N': small['N'], 'options': small['opts'],
-                        'granularity_ms': small['gran'], 'tz_minutes_east': small.get('tz', 0), 'n_ops': len(ops), 'first_bad_step': fbs,
+                        'granularity_ms': small['gran'], 'tz_minutes_east': small.get('tz', 0), 'locale': small.get('locale') or 'C.UTF-8', 'n_ops': len(ops), 'first_bad_step': fbs,
                         'ops_readable': [show_op(o) for o in ops],
                         'oracle_bits_per_step(c05,c06,c07,c09)': bits,
                         'implementation_listing_at_failure': show_listing(ls[fbs]),
@@ -660,7 +677,7 @@ def run_check(pid):
         'oracle_evaluated_on_impl_listings': stats['oracle_evaluations'], 'oracle_falsified_cases': len(falsified),
         'disagreements_model_vs_impl': len(disagreements), 'source_shape_is_proven_shape': shape_std,
         'L_histogram': hist(lambda c: c['L']), 'N_histogram': hist(lambda c: c['N']), 'options_histogram': hist(lambda c: c['opts']),
-        'granularity_histogram': hist(lambda c: c['gran']), 'time_zone_minutes_histogram': hist(lambda c: c.get('tz', 0)),
+        'granularity_histogram': hist(lambda c: c['gran']), 'time_zone_minutes_histogram': hist(lambda c: c.get('tz', 0)), 'locale_histogram': hist(lambda c: c.get('locale') or 'C.UTF-8'),
         'writes_while_local_date_differs_from_utc_date': tzdiff, 'file_name_histogram': hist(lambda c: Names(c['base'], c['suffix']).active.decode()),
         'seeded_cases': sum(1 for c in cases if any(o[0] == 'seed' for o in c['ops'])),
         'op_kind_histogram': kinds, 'record_length_minus_L_hits': bnd, 'index_crossings': cross,
@@ -685,7 +702,7 @@ def replay_check(pid, path):
     ls, _ = run_impl_one(impl, case)
     mo = run_exec(model, [lines_of(case, False)], (), chunks=1)[0][0]
     bits, infos, _, _ = verdicts(case, model, ls)
-    print('configuration  L=%d N=%d options=%d granularity=%dms zone=UTC%+dmin file=%s t0=%d' % (case['L'], case['N'], case['opts'], case['gran'], case.get('tz', 0), nm.active.decode(), case['t0']))
+    print('configuration  L=%d N=%d options=%d granularity=%dms zone=UTC%+dmin locale=%s file=%s t0=%d' % (case['L'], case['N'], case['opts'], case['gran'], case.get('tz', 0), case.get('locale') or 'C.UTF-8', nm.active.decode(), case['t0']))
     for i, o in enumerate([None] + list(case['ops'])):
         print('--- after operation %d: %s' % (i, show_op(o)))
         print('  implementation', show_listing(ls[i]) if i < len(ls) else None)
